@@ -62,6 +62,7 @@ def choose_ops(rng: random.Random, dv: A.DocView, n: int, *, scoped: bool = True
     explicit_sets = [p for p, nd in paths if nd.kind == "set" and nd.explicit and not nd.via_attrpath]
     attr_sets = [p for p, nd in paths if nd.kind == "set" and nd.via_attrpath and not nd.explicit]
     inherited = [p for p, nd in paths if nd.kind == "leaf" and nd.tokens and nd.tokens[0][0] == "inherit"]
+    mixed_sets = [p for p, nd in paths if nd.kind == "set" and nd.via_attrpath and nd.explicit]
     for _ in range(n):
         k = rng.random()
         val = rng.choice(VALUE_POOL if rng.random() < 0.85 else MULTILINE_VALUES)
@@ -97,6 +98,8 @@ def choose_ops(rng: random.Random, dv: A.DocView, n: int, *, scoped: bool = True
             elif kk < 0.45 and leaves:
                 p = rng.choice(leaves)
                 ops.append(Op("rm", spell(p + (fresh,)), "", "rm-through-leaf"))
+            elif kk < 0.5 and mixed_sets:
+                ops.append(Op("set", spell(rng.choice(mixed_sets)), val, "overwrite-mixed-root"))
             elif kk < 0.6 and attr_sets:
                 ops.append(Op("set", spell(rng.choice(attr_sets)), val, "overwrite-attrpath-root"))
             elif kk < 0.7 and attr_sets:
